@@ -475,6 +475,33 @@ fn gen_gt(rng: &mut Rng) -> (u64, u64, u64) {
     (n as u64, buf as u64, (rng.below(6) as u64) << 4 | (rng.range(1, 6) as u64) << 8)
 }
 
+/// Human-readable rendering of a C05 operation descriptor (informational; replay uses the descriptor).
+pub fn describe(op: &Op) -> serde_json::Value {
+    use serde_json::json;
+    let groups = ["BLS12-381 G1", "BLS12-381 G2", "secp256k1", "bn384 G1", "Jubjub (twisted Edwards)"];
+    let group = groups[((op.c & 0xf) as usize).min(4)];
+    match op.kind.as_str() {
+        "hist_chunked" | "hist_hashmap" => json!({
+            "accumulator": if op.kind == "hist_chunked" { "ChunkedPippenger" } else { "HashMapPippenger" },
+            "group": group, "constructor": if op.c & 0x10 == 0 { "new" } else { "with_size" },
+            "add_by_reference": op.c & 0x20 != 0, "base_pool_size": ((op.c >> 8) & 0xff).clamp(1, 12),
+            "adds": op.a, "buffer_size": op.b, "replayed_prefix_lengths": prefixes(op.a as usize, op.b as usize),
+            "history": "pool = [P, -P, identity, G, 2P, random...]; each add draws (pool index, scalar) from the seed; scalars biased to 0, 1, 2, r-1, r-2, 2^k, 2^k+-1, runs of ones, small and small negative values",
+        }),
+        "msm_direct" => json!({
+            "entry_point": (["msm (checked)", "msm_unchecked", "msm_bigint", "msm_chunks", "plain-bucket msm_bigint (verif-hooks)", "signed-digit msm_bigint (verif-hooks)"][(((op.c >> 4) & 0xf) as usize).min(5)]),
+            "group": group, "bases": op.a, "scalars": if op.b == u64::MAX { op.a } else { op.b },
+        }),
+        "gt_msm" => json!({
+            "group": "PairingOutput<Bls12_381>",
+            "entry_point": (["ChunkedPippenger", "HashMapPippenger", "msm", "msm_bigint", "plain-bucket hook", "signed-digit hook"][(((op.c >> 4) & 0xf) as usize).min(5)]),
+            "pairs": op.a, "buffer_size": op.b,
+        }),
+        "digits" => json!({"make_digits": {"scalars": op.a, "window": op.b.clamp(1, 20)}}),
+        _ => serde_json::Value::Null,
+    }
+}
+
 pub fn kinds() -> Vec<KindInfo> {
     vec![
         KindInfo { name: "hist_chunked", prop: "C05", weight: 10, gen: gen_hist, run: run_chunked, expect: Some(expect_hist), doc: "ChunkedPippenger history replayed on up to 8 prefixes; a=#adds b=buffer size c: bits0-3 group (G1,G2,secp256k1,bn384 G1,Jubjub), bit4 with_size, bit5 add by reference, bits8+ size of the base pool" },
